@@ -38,6 +38,44 @@ def contract_paths(consts):
     return paths, calls, r
 
 
+def contract_random_histories(consts, num, seed):
+    """TLC -simulate on the contract: `num` random call histories of MCContract!SimDepth calls."""
+    cfg = ("SPECIFICATION Spec\n" + tlc.consts_block(consts)
+           + "CHECK_DEADLOCK FALSE\nINVARIANT DumpLongPath\n")
+    r = tlc.run_tlc("MCContract", cfg_text=cfg, workers=1,
+                    simulate="num=%d" % num, extra=["-depth", "151", "-seed", str(seed or 1)])
+    paths = [json.loads(x) for x in r.printed("PATH")]
+    if not paths:
+        raise RuntimeError("TLC -simulate produced no histories:\n" + r.out[-2000:])
+    return paths, r
+
+
+def walk_chains(inst_kw, paths, procs=16):
+    """Run each history on its own store with ONE instance; returns the forest root."""
+    base = os.path.join(tlc.scratch_root(), "chains")
+    shutil.rmtree(base, ignore_errors=True)
+    os.makedirs(base)
+    inst = Inst(**inst_kw)
+    fhs, _ = load_hashstore()
+    root_dir = os.path.join(base, "root")
+    os.makedirs(root_dir)
+    inputs = write_inputs(inst, os.path.join(base, "inputs.root"))
+    d0 = Driver(inst, root_dir, inputs, fhs)
+    rootrec = {"call": {"op": "init", "pid": "-", "c": "-", "val": "-", "fmt": "-", "ver": "-"},
+               "res": {"cls": "ok", "cid": "-", "data": "-", "truth": True},
+               "post": d0.abstract(), "kids": []}
+    jobs = [(inst_kw, paths, [], [k], base, None) for k in range(len(paths))]
+    with multiprocessing.get_context("fork").Pool(min(procs, len(jobs))) as pool:
+        results = pool.map(_worker, jobs)
+    for res in results:
+        for sidx, first, rootfan in res:
+            if first is not None:
+                first["state"] = sidx
+                rootrec["kids"].append(first)
+    shutil.rmtree(base, ignore_errors=True)
+    return rootrec
+
+
 def _restore(snap, root):
     shutil.rmtree(root)
     shutil.copytree(snap, root)
